@@ -179,6 +179,43 @@ PROPS = {
         "a forward difference of a C^2 function with |f''|<=M on [0,eps] is within M*eps of the derivative, hence each entry is within M*1e-6 of the true box-plus derivative. PARTIAL: the convergence clause is explored (twin graphs), not proved.",
         level_note="Hand model tied by tools/harness/numjac.py (bitwise).",
     ),
+    "C07": dict(
+        modules=["GraphSlam.Props.C07"],
+        theorem_files=["GraphSlam/Props/C07/*.lean", "GraphSlam/Theory/GaussNewton.lean"],
+        scan_files=["GraphSlam/Core/*.lean", "GraphSlam/Real/*.lean", "GraphSlam/Props/C09/*.lean", "GraphSlam/Props/C01/*.lean", "GraphSlam/Props/C10/*.lean"],
+        corr=[("harness.entry", "layer_a", dict(only=["Edge", "Pose", "Util"], quick=25, thorough=400)), ("harness.entry", "assembly", dict(quick=40, thorough=1500))],
+        search=("search.entry", "c07"),
+        always_search=True,
+        replay=("search.entry", "replay_generic"),
+        rule="ties: translator validation of the edge/pose definitions and stage-wise assembly correspondence; plus (every run) metamorphic check on the real optimiser: random T (rotations near 180 degrees, translations up to 1e4) applied to every vertex "
+        "(landmark points by the action): every edge error and chi2 unchanged at 1e-9 relative, poses after k in 1..4 iterations (tol=0) equal T (+) the original result",
+        assumptions=["real arithmetic", "SE(3): unit quaternions for T, vertices and offsets", "solver returns the solution of the assembled system (trajectory statement)"],
+        technique="Lean 4 proof: group-law rewriting with kernel-checked sympy certificates; uniqueness of the Frechet derivative (C01) for the Jacobians; abstract change-of-variables theorem",
+        level_text="Proved on the regenerated definitions: (T(+)b)(-)(T(+)a)=b(-)a; every odometry and landmark error (all four pose types) is unchanged by left-composition with T (landmark points moved by the action); box-plus is left-equivariant for every increment (both SE(3) branches); "
+        "T.(l+d)=T.l+R_T d; the Jacobian of a pose vertex is the same matrix in both frames (uniqueness of the derivative + C01); an invertible change of variables that does not mix fixed and free unknowns maps solutions of the assembled system to solutions (reparam_solves). "
+        "The iteration-by-iteration commutation is the composition of these; it is stated piecewise, and explored end-to-end every run.",
+        level_note="The trajectory clause is assembled from proved pieces rather than one theorem over the whole optimiser model.",
+    ),
+    "C08": dict(
+        modules=["GraphSlam.Props.C08"],
+        theorem_files=["GraphSlam/Props/C08/*.lean"],
+        scan_files=["GraphSlam/Core/*.lean", "GraphSlam/Real/Instance.lean", "GraphSlam/Props/C03/*.lean", "GraphSlam/Theory/*.lean"],
+        corr=[("harness.entry", "layer_a", dict(only=["Edge", "PoseSE3", "PoseSE2", "Util"], quick=25, thorough=400)), ("harness.entry", "assembly", dict(quick=40, thorough=1500))],
+        search=("search.entry", "c08"),
+        always_search=True,
+        replay=("search.entry", "replay_generic"),
+        rule="ties as C03/C01; plus (every run) metamorphic variants of random well-posed graphs on the real optimiser: vertex-list permutation (same fixed vertices), edge-list permutation, id relabelling (ids up to 2^40), "
+        "+2*pi*k on SE(2) angles, negated quaternions of vertices / measurements / offsets, information scaled by c in [1e-3,1e3], edges split into two half-information copies: chi2 (scaled) and poses after 1..3 iterations compared",
+        assumptions=["real arithmetic", "odometry quaternion-sign clause only for information matrices without translation-rotation cross terms (counterexample proved otherwise: known finding)"],
+        proved_level="partial",
+        unproved=["negating a unit quaternion of an SE(3) odometry edge's measurement or vertex changes chi2 when the information matrix has translation-rotation cross terms: FALSE of the code (neg_quat_cross_counterexample; known finding quat-sign:odometry:cross-terms)",
+                  "vertex-list permutation and id relabelling are covered by C03 (arbitrary layout), Theory.reparam_solves and C18 (binding by id) rather than by one dedicated theorem"],
+        technique="Lean 4 proof: permutation-invariance of list sums for the accumulated dictionaries, linearity in Omega, ring identities for quaternion negation on the regenerated error definitions, counterexample by norm_num",
+        level_text="Proved: edge-list permutation leaves the accumulated H-, b-dictionaries and chi2 unchanged; theta+2*pi*k constructs the same SE(2) pose; H/b contributions are linear in Omega (split and scale), scaling leaves the solution set of the assembled system unchanged and scales chi2; "
+        "landmark errors are invariant under negating the pose or offset quaternion; odometry errors keep the translational part and negate the rotational part, so chi2 is unchanged for information without cross terms. "
+        "PARTIAL: with cross terms the clause is false of the current code (proved counterexample, recorded known finding).",
+        level_note="Known finding printed on every run; any other dependence on representation is reported as a violation.",
+    ),
     "C09": dict(
         modules=["GraphSlam.Props.C09"],
         theorem_files=["GraphSlam/Props/C09/*.lean", "GraphSlam/Props/C10/SE3Boxplus.lean"],
